@@ -705,10 +705,22 @@ impl PubKeyInner {
 
         match self.version {
             KeyVersion::V2 | KeyVersion::V3 => {
-                let mut v: Vec<u8> = Vec::new();
-                self.public_params.to_writer(&mut v)?;
-
-                hasher.update(&v);
+                // The fingerprint of a V3 key is formed by hashing the body (but not the
+                // two-octet length) of the MPIs that form the key material (public modulus n,
+                // followed by exponent e) with MD5.
+                match &self.public_params {
+                    PublicParams::RSA(params) => {
+                        let n: Mpi = params.key.n().into();
+                        let e: Mpi = params.key.e().into();
+                        hasher.update(n.as_ref());
+                        hasher.update(e.as_ref());
+                    }
+                    _ => {
+                        let mut v: Vec<u8> = Vec::new();
+                        self.public_params.to_writer(&mut v)?;
+                        hasher.update(&v);
+                    }
+                }
 
                 Ok(hasher.finalize())
             }
